@@ -80,6 +80,7 @@ class E2:
             return mk('inconclusive', 'symx did not finish (%s): %s' % ('timeout' if to else 'rc=%s' % rc, serr[-600:]))
         with open(outj) as f:
             res = json.load(f)
+        conc_notes = ['symbolic %s concretised to representative values (first feasible values + min + max) on %d occasion(s): other values are outside the claim' % (k, v) for k, v in (res.get('concretisations') or {}).items()]
         stats = {'paths': res['paths'], 'completed': res['completed'], 'steps': res['steps'], 'queries': res['queries'], 'solver_s': res['solver_s'],
                  'states': res['completed'], 'transitions': res['steps']}
         functions = sorted(set(self.functions) | {f.lstrip('@') for f in res.get('functions', []) if not f.startswith('@ref_') and not f.startswith('@symx')})
@@ -151,7 +152,7 @@ class E2:
             save_replay(pid, self.name + '.validation-mismatch', {'property': pid, 'obligation': self.name, 'sample': smp, 'native': mism})
             return mk('inconclusive', 'translator validation FAILED: native run of a completed path disagrees with the engine: %s' % mism.get('output', '')[-500:], stats=stats, functions=functions)
         smp = res['samples'][0] if res['samples'] else {}
-        return mk('pass', '', stats=stats, functions=functions,
+        return mk('pass', '', stats=stats, functions=functions, notes=conc_notes,
                   sample={'completed_paths': res['completed'], 'one_path_inputs': compact(smp.get('inputs')), 'choices': smp.get('choices'), 'obs': compact_obs(smp.get('obs'))})
 
     # ---- native replay
